@@ -119,13 +119,8 @@ def stepAction (env : Env) (a : Action) (tokens : Array Nat) : M (String × Arra
     let old ← writeVar v (fun x => x.addInt d 7)
     pure ("ok " ++ old.render, tokens)
   | .get v => do pure ("ok " ++ (← getVar v).value.render, tokens)
-  | .dropVar v =>
-    let vc ← getVar v
-    if vc.handles == 0 then pure ("noop", tokens)
-    else
-      modVar v fun x => { x with handles := x.handles - 1 }
-      if vc.handles == 1 then modify fun s => { s with deadVars := s.deadVars ++ [v] }
-      pure ("ok", tokens)
+  | .dropVar v => do
+    if ← dropVarHandle v then pure ("ok", tokens) else pure ("noop", tokens)
   | .addDep e c cb => do
     let n ← resolveOpnd [] e
     let c ← resolveOpnd [] c
